@@ -599,11 +599,17 @@ impl Sim {
 fn phase(sim: &mut Sim, what: &str, out: &mut CaseOut, rendered: &serde_json::Value) -> Option<f64> {
     // run until converged (at most t_conv), then require stability for 12 intervals
     let d = sim.diameter();
-    let mult: u64 = std::env::var("VERIF_C01_BOUND_MULT").ok().and_then(|x| x.parse().ok()).unwrap_or(1);
+    let mut mult: u64 = std::env::var("VERIF_C01_BOUND_MULT").ok().and_then(|x| x.parse().ok()).unwrap_or(1);
+    if what.contains("fault") {
+        // diagnosis aid: stretch only the post-fault phase (the history up to the fault stays the same)
+        mult *= std::env::var("VERIF_C01_FAULT_MULT").ok().and_then(|x| x.parse::<u64>().ok()).unwrap_or(1);
+    }
     let mut t_conv = mult * (2 * sim.sc.receipt_timeout as u64 + 4 + 3) * (d + 2) * sim.interval;
-    // with the path trace option on every node the loop is broken by discarding looping Announces,
-    // so the normal bound applies even in cyclic topologies
-    if what.contains("fault") && sim.has_cycle() && !sim.sc.path_trace {
+    // The path trace option does not shorten this in statime: the looping test is applied to Announces of the
+    // *current parent* only, so the stale data set of a lost grandmaster is still re-selected through the other
+    // port of a cycle and counts up to 255 (thorough tier: 3 nodes, two parallel segments, path trace on, 5-interval
+    // oscillation for 321 intervals) - same bound with and without path trace.
+    if what.contains("fault") && sim.has_cycle() {
         // IEEE 1588 without path trace: after the grandmaster is lost, its stale data set keeps circulating in a
         // cycle of boundary clocks with stepsRemoved growing by the cycle length per round until it reaches 255
         // ("count to infinity"). Each hop costs up to one announce interval plus one BMCA period, so the bound
@@ -615,11 +621,21 @@ fn phase(sim: &mut Sim, what: &str, out: &mut CaseOut, rendered: &serde_json::Va
     // the predicates must hold from some point before the bound onwards: run the whole bound and
     // remember the last moment they did not hold (transient re-convergence flaps inside the bound are allowed)
     let mut last_fail: Option<(u64, String)> = None;
+    let trace = std::env::var("VERIF_C01_TRACE").is_ok();
+    let mut prev_trace: Option<String> = Some(String::new());
     let step = sim.interval / 2;
     while sim.now < start + t_conv {
         let until = sim.now + step;
         sim.run(until, |_, _| {});
-        if let Some(p) = sim.evaluate() {
+        let ev = sim.evaluate();
+        if trace {
+            let cur = ev.clone().map(|p| p.chars().take(90).collect::<String>());
+            if cur != prev_trace {
+                eprintln!("C01-TRACE {} t={:.1} intervals: {}", what, (sim.now - start) as f64 / sim.interval as f64, cur.clone().unwrap_or_else(|| "predicates hold".into()));
+                prev_trace = cur;
+            }
+        }
+        if let Some(p) = ev {
             last_fail = Some((sim.now, p));
         }
     }
